@@ -408,6 +408,8 @@ fn run_entry<I: InShape, O: OutShape>(
     bencher: Bencher<'_, '_>,
     input_counters: &[u64],
     bencher_counters: &[(u64, u64)],
+    // constant counters given to the Bencher AFTER its input counters
+    late_counters: &[(u64, u64)],
 ) {
     match entry {
         "bench" => {
@@ -422,6 +424,7 @@ fn run_entry<I: InShape, O: OutShape>(
             let b = bencher.with_inputs(gen::<I>);
             let b = add_counters!(b, bencher_counters);
             let b = add_input_counters!(b, I, input_counters);
+            let b = add_counters!(b, late_counters);
             b.bench_values(|i: I| {
                 let id = i.id();
                 // Ownership went to the benchmarked function; it keeps it.
@@ -433,6 +436,7 @@ fn run_entry<I: InShape, O: OutShape>(
             let b = bencher.with_inputs(gen::<I>);
             let b = add_counters!(b, bencher_counters);
             let b = add_input_counters!(b, I, input_counters);
+            let b = add_counters!(b, late_counters);
             b.bench_local_values(|i: I| {
                 let id = i.id();
                 std::mem::forget(i);
@@ -443,12 +447,14 @@ fn run_entry<I: InShape, O: OutShape>(
             let b = bencher.with_inputs(gen::<I>);
             let b = add_counters!(b, bencher_counters);
             let b = add_input_counters!(b, I, input_counters);
+            let b = add_counters!(b, late_counters);
             b.bench_refs(|i: &mut I| call::<O>(i.id()))
         }
         "bench_local_refs" => {
             let b = bencher.with_inputs(gen::<I>);
             let b = add_counters!(b, bencher_counters);
             let b = add_input_counters!(b, I, input_counters);
+            let b = add_counters!(b, late_counters);
             b.bench_local_refs(|i: &mut I| call::<O>(i.id()))
         }
         other => panic!("unknown entry {other}"),
@@ -462,14 +468,15 @@ fn dispatch(
     bencher: Bencher<'_, '_>,
     input_counters: &[u64],
     bencher_counters: &[(u64, u64)],
+    late_counters: &[(u64, u64)],
 ) {
     macro_rules! go {
         ($I:ty) => {
             match out_shape {
-                "zst" => run_entry::<$I, OutZ>(entry, bencher, input_counters, bencher_counters),
-                "zst_drop" => run_entry::<$I, OutZD>(entry, bencher, input_counters, bencher_counters),
-                "sized" => run_entry::<$I, OutS>(entry, bencher, input_counters, bencher_counters),
-                _ => run_entry::<$I, OutSD>(entry, bencher, input_counters, bencher_counters),
+                "zst" => run_entry::<$I, OutZ>(entry, bencher, input_counters, bencher_counters, late_counters),
+                "zst_drop" => run_entry::<$I, OutZD>(entry, bencher, input_counters, bencher_counters, late_counters),
+                "sized" => run_entry::<$I, OutS>(entry, bencher, input_counters, bencher_counters, late_counters),
+                _ => run_entry::<$I, OutSD>(entry, bencher, input_counters, bencher_counters, late_counters),
             }
         };
     }
@@ -604,6 +611,7 @@ pub fn body(sc: Arc<Value>) {
     let input_counters: Vec<u64> =
         sc["input_counters"].as_array().map(|a| a.iter().filter_map(|x| x.as_u64()).collect()).unwrap_or_default();
     let bencher_counters = pairs(&sc["bencher_counters"]);
+    let late_counters = pairs(&sc["late_counters"]);
     let want_stats = action == api::BenchAction::Bench;
 
     // Make sure this thread's tally exists and starts from a known state.
@@ -613,7 +621,7 @@ pub fn body(sc: Arc<Value>) {
         api::with_bencher(action, timer, &options, threads, want_stats, |bencher| {
             event(Ev::new("bench_call").s("entry", &entry));
             let r = std::panic::catch_unwind(std::panic::AssertUnwindSafe(|| {
-                dispatch(&in_shape, &out_shape, &entry, bencher, &input_counters, &bencher_counters)
+                dispatch(&in_shape, &out_shape, &entry, bencher, &input_counters, &bencher_counters, &late_counters)
             }));
             match r {
                 Ok(()) => event(Ev::new("bench_return").b("panicked", false)),
